@@ -409,6 +409,41 @@ class SymArr:
     def flatten(self):
         raise OutsideSubset("flatten")
 
+    # -- ndarray methods that are the numpy functions of the same name (numpy documents them as equivalent)
+    def sum(self, axis=None, keepdims=False, **kw):
+        if kw:
+            raise OutsideSubset("ndarray.sum options %r" % (kw,))
+        return SymNumpy().sum(self, axis=axis, keepdims=keepdims)
+
+    def mean(self, axis=None, **kw):
+        if kw:
+            raise OutsideSubset("ndarray.mean options %r" % (kw,))
+        return SymNumpy().average(self, axis=axis)
+
+    def prod(self, axis=None, **kw):
+        if kw:
+            raise OutsideSubset("ndarray.prod options %r" % (kw,))
+        return SymNumpy().prod(self, axis=axis)
+
+    def transpose(self, *axes):
+        if axes and axes != (None,):
+            ax = axes[0] if len(axes) == 1 and isinstance(axes[0], (tuple, list)) else axes
+            ax = tuple(a % self.ndim for a in ax)
+            if sorted(ax) != list(range(self.ndim)):
+                raise ShapeObligation("axes don't match array")
+            return SymArr(tuple(self.shape[a] for a in ax), lambda idx, e=self.elem, ax=ax: e(tuple(idx[ax.index(k)] for k in range(len(ax)))), self.kind)
+        return self.T
+
+    def astype(self, dtype, **kw):
+        if dtype in (float, "float", "float64", "f8") or getattr(dtype, "__name__", "") in ("float64", "float"):
+            return self.copy()
+        raise OutsideSubset("astype(%r)" % (dtype,))
+
+    def conj(self):
+        return self
+
+    conjugate = conj
+
     # -- arithmetic
     def _bin(self, o, f, kind="real"):
         if isinstance(o, (list, tuple)):
@@ -548,7 +583,10 @@ class SymArr:
             key = (key,)
         if isinstance(key, tuple) and len(key) == 1 and isinstance(key[0], tuple) and all(isinstance(k, WhereIdx) for k in key[0]):
             key = key[0]
-        key = self._norm_key(key if isinstance(key, tuple) else (key,))
+        key = key if isinstance(key, tuple) else (key,)
+        # boolean mask on one axis: ret[mask, :] = v  is  ret[numpy.where(mask), :] = v
+        key = tuple(WhereIdx(k) if (isinstance(k, SymArr) and k.kind == "bool" and k.ndim == 1) else k for k in key)
+        key = self._norm_key(key)
         if any(k is None for k in key):
             raise OutsideSubset("newaxis in assignment")
         conds = []      # functions idx -> z3 Bool
@@ -814,7 +852,30 @@ class SymNumpy:
         den = make_sum(w, 0)
         return num / den
 
-    mean = average
+    def mean(self, x, axis=None, **kw):
+        if kw:
+            raise OutsideSubset("numpy.mean options %r" % (kw,))
+        return self.average(x, axis=axis)
+
+    def square(self, x):
+        return x * x
+
+    def multiply(self, a, b): return a * b
+    def add(self, a, b): return a + b
+    def subtract(self, a, b): return a - b
+    def divide(self, a, b): return a / b
+    true_divide = divide
+    def negative(self, a): return -a
+    def power(self, a, b): return a ** b
+
+    def transpose(self, x, axes=None):
+        return x.transpose(axes) if axes is not None else x.T
+
+    def zeros_like(self, x, dtype=None):
+        return SymArr(x.shape, lambda idx: z3.RealVal(0))
+
+    def ones_like(self, x, dtype=None):
+        return SymArr(x.shape, lambda idx: z3.RealVal(1))
 
     def where(self, cond, *rest):
         if rest:
